@@ -547,7 +547,7 @@ class ExprMixin:
         for lo_t, hi_t in ((x, y), (y, x)):
             for k in (1, 2, 3, 4, 7, 8, 15, 16, 24, 32):
                 c = z3.And(lo_t >= 0, lo_t < (1 << k), hi_t >= 0, hi_t % (1 << k) == 0)
-                if not self.path._check(z3.Not(c)):
+                if self.path.prove(c):
                     if op is ast.BitAnd:
                         return 0
                     return mk("int", x + y)
